@@ -131,19 +131,19 @@ package core
 //@ func (*IndexedState).add
 //@   ghost-ensures ite(is(result1, *ExpiredError), owed == id, owed == old(owed))
 //@   also-modifies owed
-// Storage back ends are assumed not to modify contexts, states or locations.
+// Storage back ends are assumed not to modify contexts, states, locations or the states' fact tables.
 //@ iface Storage.Remove
 //@   ghost-ensures ite(result1 == nil && old(str(k)) == old(owed), owed == "", owed == old(owed))
 //@   also-modifies owed
-//@   modifies allbut(F:core.Context.|F:core.IndexedState.|F:core.LinearState.|F:core.Location.)
+//@   modifies allbut(F:core.Context.|F:core.IndexedState.|F:core.LinearState.|F:core.Location.|MD:string:map[string]interface{}|MV:string:map[string]interface{}|ML:string:map[string]interface{}|MD:string:core.RawFact|MV:string:core.RawFact|ML:string:core.RawFact|MD:string:*core.Rule|MV:string:*core.Rule|ML:string:*core.Rule)
 //@ iface Storage.Add
-//@   modifies allbut(F:core.Context.|F:core.IndexedState.|F:core.LinearState.|F:core.Location.)
+//@   modifies allbut(F:core.Context.|F:core.IndexedState.|F:core.LinearState.|F:core.Location.|MD:string:map[string]interface{}|MV:string:map[string]interface{}|ML:string:map[string]interface{}|MD:string:core.RawFact|MV:string:core.RawFact|ML:string:core.RawFact|MD:string:*core.Rule|MV:string:*core.Rule|ML:string:*core.Rule)
 //@ iface Storage.Load
-//@   modifies allbut(F:core.Context.|F:core.IndexedState.|F:core.LinearState.|F:core.Location.)
+//@   modifies allbut(F:core.Context.|F:core.IndexedState.|F:core.LinearState.|F:core.Location.|MD:string:map[string]interface{}|MV:string:map[string]interface{}|ML:string:map[string]interface{}|MD:string:core.RawFact|MV:string:core.RawFact|ML:string:core.RawFact|MD:string:*core.Rule|MV:string:*core.Rule|ML:string:*core.Rule)
 //@ iface Storage.Clear
-//@   modifies allbut(F:core.Context.|F:core.IndexedState.|F:core.LinearState.|F:core.Location.)
+//@   modifies allbut(F:core.Context.|F:core.IndexedState.|F:core.LinearState.|F:core.Location.|MD:string:map[string]interface{}|MV:string:map[string]interface{}|ML:string:map[string]interface{}|MD:string:core.RawFact|MV:string:core.RawFact|ML:string:core.RawFact|MD:string:*core.Rule|MV:string:*core.Rule|ML:string:*core.Rule)
 //@ iface Storage.Delete
-//@   modifies allbut(F:core.Context.|F:core.IndexedState.|F:core.LinearState.|F:core.Location.)
+//@   modifies allbut(F:core.Context.|F:core.IndexedState.|F:core.LinearState.|F:core.Location.|MD:string:map[string]interface{}|MV:string:map[string]interface{}|ML:string:map[string]interface{}|MD:string:core.RawFact|MV:string:core.RawFact|ML:string:core.RawFact|MD:string:*core.Rule|MV:string:*core.Rule|ML:string:*core.Rule)
 //@ func (*IndexedState).Load
 //@   assume-entry owed == ""
 //@   loop 1: invariant[C07.ix_load_purges_expired] owed == ""
@@ -542,3 +542,102 @@ package core
 //@   ensures[C09.indexed_state_is_for_its_location] result1 == nil ==> result0 != nil && result0.Name == name && result0.Store == store
 //@ func NewLinearState
 //@   ensures[C09.linear_state_is_for_its_location] result1 == nil ==> result0 != nil && result0.Name == name && result0.store == store
+
+// ---- C06 / C08: write-through, error propagation, cascades -----------------------------------
+//@ ghost stAdds int
+//@ ghost stRems int
+//@ ghost stAddLoc string
+//@ ghost stAddKey string
+//@ ghost stErr bool gate
+//@ ghost remErr bool gate
+//@ iface Storage.Add
+//@   ghost-ensures stAdds == old(stAdds) + 1 && stAddLoc == loc && stAddKey == old(str(data.K)) && stErr == (old(stErr) || result != nil)
+//@   also-modifies stAdds, stAddLoc, stAddKey, stErr
+//@ iface Storage.Remove
+//@   ghost-ensures stRems == old(stRems) + 1 && stErr == (old(stErr) || result1 != nil)
+//@   also-modifies stRems, stErr
+//@ iface Storage.Clear
+//@   ghost-ensures stErr == (old(stErr) || result1 != nil)
+//@   also-modifies stErr
+//@ iface Storage.Delete
+//@   ghost-ensures stErr == (old(stErr) || result != nil)
+//@   also-modifies stErr
+//@ iface Storage.Load
+//@   ghost-ensures stErr == (old(stErr) || result1 != nil)
+//@   also-modifies stErr
+
+//@ func (*IndexedState).Add
+//@   ensures[C06.ix_add_writes_through] result1 == nil ==> stAdds == old(stAdds) + 1 && stAddLoc == s.Name && stAddKey == result0
+//@   ensures[C06.ix_add_storage_error_is_reported] stErr ==> result1 != nil
+//@ func (*LinearState).Add
+//@   ensures[C06.lin_add_writes_through] result1 == nil ==> stAdds == old(stAdds) + 1 && stAddLoc == s.Name && stAddKey == result0
+//@   ensures[C06.lin_add_storage_error_is_reported] stErr ==> result1 != nil
+//@ func (*IndexedState).Clear
+//@   ensures[C06.ix_clear_storage_error_is_reported] stErr ==> result != nil
+//@ func (*IndexedState).Delete
+//@   ensures[C06.ix_delete_storage_error_is_reported] stErr ==> result != nil
+//@ func (*LinearState).Clear
+//@   ensures[C06.lin_clear_storage_error_is_reported] stErr ==> result != nil
+//@ func (*LinearState).Delete
+//@   ensures[C06.lin_delete_storage_error_is_reported] stErr ==> result != nil
+//@ func (*IndexedState).Load
+//@   ensures[C06.ix_load_storage_error_is_reported] stErr ==> result != nil
+
+//@ func (*IndexedState).rem
+//@   ensures[C08.ix_rem_removes_the_id]     result1 == nil ==> !has(s.IdToFact, id)
+//@   ensures[C08.ix_rem_only_removes]       forall(k, string, has(s.IdToFact, k) ==> old(has(s.IdToFact, k)))
+//@   ensures[C06.ix_rem_reaches_storage]    old(has(s.IdToFact, id)) && result1 == nil ==> stRems > old(stRems)
+//@   ensures[C06.ix_rem_storage_monotone]   stRems >= old(stRems)
+//@   ensures[C06.ix_rem_error_is_reported]  remErr ==> result1 != nil
+//@   assert[C06.ix_rem_removes_own_key]     at "s.Store.Remove(ctx, s.Name, []byte(id))": true
+//@   ghost-ensures remErr == (old(remErr) || result1 != nil)
+//@   also-modifies remErr, stRems, stErr
+//@ func (*IndexedState).deleteDependencies
+//@   ensures[C08.ix_cascade_only_removes]    forall(k, string, has(s.IdToFact, k) ==> old(has(s.IdToFact, k)))
+//@   ensures[C06.ix_cascade_storage_monotone] stRems >= old(stRems)
+//@   ensures[C06.ix_cascade_error_is_reported] remErr ==> result != nil
+//@   loop 1: invariant[C08.ix_cascade_loop] !remErr && stRems >= old(stRems) && forall(k, string, has(s.IdToFact, k) ==> old(has(s.IdToFact, k)))
+//@   also-modifies remErr, stRems, stErr
+//@ func (*IndexedState).search
+//@   ensures[C08.ix_search_only_removes]     forall(k, string, has(s.IdToFact, k) ==> old(has(s.IdToFact, k)))
+//@   ensures[C06.ix_search_storage_monotone] stRems >= old(stRems)
+//@   loop 1: invariant[C08.ix_search_loop] stRems >= old(stRems) && forall(k, string, has(s.IdToFact, k) ==> old(has(s.IdToFact, k)))
+//@   also-modifies remErr, stRems, stErr
+//@ func (*IndexedState).expire
+//@   ensures[C08.ix_expire_only_removes]     forall(k, string, has(s.IdToFact, k) ==> old(has(s.IdToFact, k)))
+//@   ensures[C06.ix_expire_storage_monotone] stRems >= old(stRems)
+//@   also-modifies remErr, stRems, stErr
+
+//@ func (*LinearState).rem
+//@   ensures[C08.lin_rem_removes_the_id]    result1 == nil ==> !has(s.Facts, id)
+//@   ensures[C08.lin_rem_only_removes]      forall(k, string, has(s.Facts, k) ==> old(has(s.Facts, k)))
+//@   ensures[C06.lin_rem_reaches_storage]   result1 == nil ==> stRems > old(stRems)
+//@   ensures[C06.lin_rem_storage_monotone]  stRems >= old(stRems)
+//@   assert[C06.lin_rem_store_first]        at "s.deleteDependencies(ctx, id)": stRems > old(stRems)
+//@   ghost-ensures remErr == (old(remErr) || result1 != nil)
+//@   also-modifies remErr, stRems, stErr
+//@ func (*LinearState).deleteDependencies
+//@   ensures[C08.lin_cascade_only_removes]    forall(k, string, has(s.Facts, k) ==> old(has(s.Facts, k)))
+//@   ensures[C06.lin_cascade_storage_monotone] stRems >= old(stRems)
+//@   ensures[C06.lin_cascade_error_is_reported] remErr ==> result != nil
+//@   loop 1: invariant[C08.lin_cascade_loop] !remErr && stRems >= old(stRems) && forall(k, string, has(s.Facts, k) ==> old(has(s.Facts, k)))
+//@   also-modifies remErr, stRems, stErr
+//@ func (*LinearState).search
+//@   ensures[C08.lin_search_only_removes]     forall(k, string, has(s.Facts, k) ==> old(has(s.Facts, k)))
+//@   ensures[C06.lin_search_storage_monotone] stRems >= old(stRems)
+//@   loop 1: invariant[C08.lin_search_loop] stRems >= old(stRems) && forall(k, string, has(s.Facts, k) ==> old(has(s.Facts, k)))
+//@   also-modifies remErr, stRems, stErr
+//@ func (*LinearState).expire
+//@   ensures[C08.lin_expire_only_removes]     forall(k, string, has(s.Facts, k) ==> old(has(s.Facts, k)))
+//@   ensures[C06.lin_expire_storage_monotone] stRems >= old(stRems)
+//@   also-modifies remErr, stRems, stErr
+
+// Properties attach to their target through deleteWith; rules lift their deleteWith to the stored wrapper.
+//@ func SetProp
+//@   assert[C08.setprop_depends_on_target] at "s.Add(ctx, \"\", fact)": true
+//@ func (*MemStorage).Add
+//@   ensures[C06.mem_add] result == nil && has(s.locToPairs, loc) && has(s.locToPairs[loc], old(str(m.K))) && s.locToPairs[loc][old(str(m.K))] == old(str(m.V))
+//@ func (*MemStorage).Remove
+//@   ensures[C06.mem_remove] result1 == nil && !has(s.locToPairs[loc], old(str(k)))
+//@ func (*MemStorage).Clear
+//@   ensures[C06.mem_clear] result1 == nil && !has(s.locToPairs, loc)
